@@ -42,7 +42,16 @@ structure Query where
   pre      : Bool
 deriving Repr
 
+/-- a transmit event as first returned by a member's event provider -/
+structure EvSeen where
+  round : Nat
+  node  : Nat
+  wid   : String
+  checkBlock : Nat
+deriving Repr
+
 structure Trace where
+  events : List EvSeen := []
   n : Nat
   f : Nat
   honest  : List Nat   -- not Byzantine
@@ -109,6 +118,26 @@ def notReagreedInFlight (t : Trace) : Bool :=
     | none => true
     | some rd => rd.agreed.all fun u => !(!t.correct.isEmpty && t.correct.all (fun h => inFlight t h r u.workID))
 
+/-- ground truth: `w` is in flight on the correct member `h` right before round `r`: `h` accepted (answer true) a report
+carrying `w` at check block `b` in an earlier round and its event provider has not yet returned any transmit event for
+`w` with check block ≥ `b` (an event for an OLDER check block does not release the newer report). The lockout window of
+the network runs (100 s) is longer than a run. -/
+def inFlightTruth (t : Trace) (h r : Nat) (w : String) : Bool :=
+  t.queries.any fun a =>
+    a.isAccept && a.accept && a.node == h && decide (a.round < r) &&
+    (match reportOf t a.report with
+     | none => false
+     | some rep => rep.upkeeps.any fun u =>
+         u.workID == w &&
+         !(t.events.any fun e => e.node == h && e.wid == w && decide (u.trigger.blockNumber ≤ e.checkBlock) && decide (e.round ≤ r)))
+
+/-- S3': a unit of work that is (ground truth) in flight on every correct member is not agreed again -/
+def notReagreedInFlightTruth (t : Trace) : Bool :=
+  (List.range t.rounds.length).all fun r =>
+    match t.rounds[r]? with
+    | none => true
+    | some rd => rd.agreed.all fun u => !(!t.correct.isEmpty && t.correct.all (fun h => inFlightTruth t h r u.workID))
+
 /-- the most recent restart of member `h` at or before round `r` (0 if none); restarts happen at the start of a round -/
 def lastRestart (restarts : List (Nat × Nat)) (h r : Nat) : Nat :=
   ((restarts.filter (fun p => p.1 == h && decide (p.2 ≤ r))).map (·.2)).foldl max 0
@@ -135,7 +164,7 @@ def outcomesAgree (t : Trace) : Bool := t.rounds.all (fun rd => !rd.disagree)
 
 def spec (t : Trace) (restarts : List (Nat × Nat)) : Bool :=
   transmitVouched t && oneReportPerWork t && notReagreedInFlight t && outcomesAgree t &&
-  transmitOnlyAcceptedSinceRestart t restarts
+  transmitOnlyAcceptedSinceRestart t restarts && notReagreedInFlightTruth t
 
 def explain (t : Trace) (restarts : List (Nat × Nat)) : String :=
   if !transmitOnlyAcceptedSinceRestart t restarts then "a member is willing to transmit a report it has not accepted since its last restart (no acceptance of that unit of work at that check block)"
@@ -143,6 +172,7 @@ def explain (t : Trace) (restarts : List (Nat × Nat)) : String :=
   else if !transmitVouched t then "an honest member is willing to transmit an upkeep that no honest pipeline found eligible with identical data, or that fewer than f+1 validated observations vouched for"
   else if !oneReportPerWork t then "two-reports-one-work: an honest member is willing to transmit two different reports for the same unit of work at once"
   else if !notReagreedInFlight t then "a unit of work was agreed again while in flight on every correct member"
+  else if !notReagreedInFlightTruth t then "a unit of work was agreed again although every correct member had accepted a report for it and had been shown no transmit event for that (or a newer) check block"
   else "ok"
 
 end AutoVerif.C09
